@@ -58,7 +58,7 @@ package parser
 //@ end
 
 //@ func (p *Parser) tryReplaceWithConstant
-//@   ensures [C13:subst] result == (indom(p.constants, value) ? p.constants[value] : value)
+//@   ensures [C10,C13:subst] result == (indom(p.constants, value) ? p.constants[value] : value)
 //@ end
 
 // ---- break / continue scope stacks (C20) ----
@@ -846,7 +846,7 @@ package parser
 // C07: the formatter is called on the written string with the font finally chosen, and every box parameter that was
 // not written comes from THAT font's entry in the font table (numLines falling back to 2)
 //@   loopinv [C07:params-inv] specifiedParams != nil && fresh(specifiedParams) && (!indom(specifiedParams, "numLines") ==> numLines == -1) && (!indom(specifiedParams, "cursorOverlapWidth") ==> cursorOverlapWidth == -1)
-//@   exit [C07:format-args] result3 == nil ==> (lastarg(FormatText, 1) == textToken.Literal && lastarg(FormatText, 4) == fontID && result0 == textToken && result1 == lastresult(FormatText, 0)
+//@   exit [C07,C09:format-args] result3 == nil ==> (lastarg(FormatText, 1) == textToken.Literal && lastarg(FormatText, 4) == fontID && result0 == textToken && result1 == lastresult(FormatText, 0)
 //@        && ((indom(p.fonts.Fonts, fontID) && !indom(specifiedParams, "cursorOverlapWidth")) ==> lastarg(FormatText, 3) == p.fonts.Fonts[fontID].CursorOverlapWidth)
 //@        && ((indom(p.fonts.Fonts, fontID) && !indom(specifiedParams, "numLines")) ==> lastarg(FormatText, 5) == (p.fonts.Fonts[fontID].NumLines > 0 ? p.fonts.Fonts[fontID].NumLines : 2)))
 //@   ensures [C16,C18:text-token] result3 == nil ==> TokLoc(result0)
